@@ -167,6 +167,62 @@ func checkLoopProgress(p *Prog, r *Result, pkg *packages.Package) {
 		}
 	}
 	r.Notef("R06h: %d token-level loops (they call next, directly or not) are out of scope: their termination rests on _EOF being absorbing", nToken)
+	// loops made of a backward goto (next() starts over after a comment). rune() and fill() are the two functions the
+	// notion of progress is built on; their own retry labels are the subject of R06e and R06k.
+	for _, fo := range fos {
+		sig := fo.Type().(*types.Signature)
+		if sig.Recv() == nil || namedOf(sig.Recv().Type()) != parserT || fo == runeFn || fo.Name() == "fill" {
+			continue
+		}
+		fd := fg.decls[fo]
+		labels := map[string]token.Pos{}
+		inspectNoLit(fd.Body, func(n ast.Node) bool {
+			if ls, ok := n.(*ast.LabeledStmt); ok {
+				labels[ls.Label.Name] = ls.Pos()
+			}
+			return true
+		})
+		k := 0
+		inspectNoLit(fd.Body, func(n ast.Node) bool {
+			bs, ok := n.(*ast.BranchStmt)
+			if !ok || bs.Tok != token.GOTO || bs.Label == nil {
+				return true
+			}
+			at, ok := labels[bs.Label.Name]
+			if !ok || at > bs.Pos() {
+				return true // a forward jump closes no loop
+			}
+			k++
+			key := fmt.Sprintf("%s#goto loop %d (%s)", funcObjKey(fo), k, bs.Label.Name)
+			g := fg.graph(fo)
+			from, _ := g.BlockOf(bs)
+			if from == nil || len(from.Succs) != 1 {
+				r.Undecided("R06h", key, bs.Pos(), "the jump was not found in the flow graph")
+				return true
+			}
+			head := from.Succs[0].To
+			loopBlocks := map[*FBlock]bool{}
+			for b := range g.Reachable(head, func(e *FEdge) bool { return e.To != g.Exit && e.To != g.Abort }) {
+				if b == head || g.Reachable(b, nil)[from] {
+					loopBlocks[b] = true
+				}
+			}
+			isProgress := func(n ast.Node) bool { return nodeCallsAny(info, n, prog) }
+			if why, ok := oneShotJump(info, g, from, loopBlocks); ok {
+				r.OK("R06h", key, bs.Pos(), why)
+				return true
+			}
+			switch {
+			case cycleAvoiding(g, head, loopBlocks, isProgress):
+				r.Bad("R06h", key, bs.Pos(), "some path from the label back to this jump neither consumes input nor reports an error: on the input that takes that path forever the parser hangs")
+			case eofLeaves(info, g, loopBlocks):
+				r.OK("R06h", key, bs.Pos(), "every path from the label to the jump calls a function that always consumes input or reports an error, and the end-of-input sentinel leaves the loop")
+			default:
+				r.Bad("R06h", key, bs.Pos(), "every cycle reads a rune, but no test of the end-of-input sentinel leaves the loop: at end of input rune() keeps returning runeEOF and the loop spins")
+			}
+			return true
+		})
+	}
 }
 
 // eofBoundedCond: the loop condition compares the rune with a constant other than the
@@ -476,4 +532,65 @@ func structurallyBounded(info *types.Info, fs *ast.ForStmt) (string, bool) {
 		return "", false
 	}
 	return "counter loop: " + exprString(fs.Cond) + " with " + stmtString(fs.Post), true
+}
+
+// oneShotJump: the jump is taken under `F == K1` and its block stores F = K2, another constant, before jumping, while
+// nothing else in the loop stores F: the second time round the guard is false, so the jump is taken at most once per call.
+func oneShotJump(info *types.Info, g *FGraph, from *FBlock, loopBlocks map[*FBlock]bool) (string, bool) {
+	constOf := func(e ast.Expr) string {
+		if tv, ok := info.Types[e]; ok && tv.Value != nil {
+			return tv.Value.ExactString()
+		}
+		return ""
+	}
+	// the store in the jump's own block
+	var field, k2 string
+	for _, n := range from.Nodes {
+		if as, ok := n.(*ast.AssignStmt); ok && as.Tok == token.ASSIGN && len(as.Lhs) == 1 && len(as.Rhs) == 1 {
+			if c := constOf(as.Rhs[0]); c != "" && selectorField(info, as.Lhs[0]) != nil {
+				field, k2 = exprString(as.Lhs[0]), c
+			}
+		}
+	}
+	if field == "" {
+		return "", false
+	}
+	// every way into that block passes `field == K1` with K1 != K2
+	guarded := underEdges(g, from, func(e *FEdge) bool {
+		var x, y ast.Expr
+		eq := false
+		if e.Tag != nil {
+			x, y, eq = e.Tag, e.Cond, e.Pol
+		} else if be, ok := ast.Unparen(e.Cond).(*ast.BinaryExpr); ok {
+			x, y = be.X, be.Y
+			eq = (be.Op == token.EQL && e.Pol) || (be.Op == token.NEQ && !e.Pol)
+		}
+		if x == nil || y == nil || !eq {
+			return false
+		}
+		k1 := constOf(y)
+		return exprString(x) == field && k1 != "" && k1 != k2
+	})
+	if !guarded {
+		return "", false
+	}
+	stores := 0
+	for b := range loopBlocks {
+		for _, n := range b.Nodes {
+			inspectNoLit(n, func(m ast.Node) bool {
+				if as, ok := m.(*ast.AssignStmt); ok {
+					for _, l := range as.Lhs {
+						if exprString(l) == field {
+							stores++
+						}
+					}
+				}
+				return true
+			})
+		}
+	}
+	if stores != 1 {
+		return "", false
+	}
+	return fmt.Sprintf("taken at most once per call: the jump runs under a test that %s equals one constant and stores another before jumping, and nothing else on the way back stores it", field), true
 }
